@@ -32,6 +32,14 @@ fn keys() -> Vec<Vec<u8>> {
     v
 }
 
+/// "any length": keys longer than a byte can count (and than two bytes can), with no period shorter than their length
+fn long_keys() -> Vec<Vec<u8>> {
+    [255usize, 256, 257, 300, 1024, 65_537].iter().map(|l| {
+        let mut x: u32 = 0x2545_f491 ^ *l as u32;
+        (0..*l).map(|_| { x = x.wrapping_mul(1_664_525).wrapping_add(1_013_904_223); (x >> 24) as u8 }).collect()
+    }).collect()
+}
+
 pub fn run() -> Report {
     let mut rep = Report::new("C11", "e1");
     let thorough = is_thorough();
@@ -102,11 +110,21 @@ pub fn run() -> Report {
             }
         }
     }
+    for (ai, arr) in arrangements(n).into_iter().enumerate() {
+        if ai % 12 != 5 {
+            continue;
+        }
+        let files = (0..3).map(|f| (f as u64, None, arr[f].iter().map(|b| (*b, Gap::FakeMagic, None)).collect())).collect();
+        let layout = Layout { files, index_form: 0, junk_keys: false, foreign_entries: false, label: format!("arr#{}/gap1/long key", ai) };
+        for (ki, key) in long_keys().into_iter().enumerate() {
+            cases.push(Case { big: false, layout: layout.clone(), key, cbs: if (ai + ki) % 4 == 0 { all5.clone() } else { vec!["csvdump"] } });
+        }
+    }
     // big blocks: forward and backward physical order, with odd gaps so that block starts are not key-aligned
     for order in [vec![0usize, 1, 2, 3], vec![3, 2, 1, 0], vec![2, 0, 3, 1]] {
         let blocks = order.iter().map(|b| (*b, Gap::FakeMagic, None)).collect();
         let layout = Layout { files: vec![(0, None, blocks)], index_form: 0, junk_keys: false, foreign_entries: false, label: format!("big/{:?}", order) };
-        for key in keys() {
+        for key in keys().into_iter().chain(long_keys()) {
             cases.push(Case { big: true, layout: layout.clone(), key, cbs: all5.clone() });
         }
     }
